@@ -22,7 +22,7 @@ from typing import Any, Iterable, Optional
 
 from ..cfg import CFG, Node, count_on_paths, describe_path, find_path
 from ..core import Ctx, Rule
-from ..facts import ShapeError, call_name, calls_in, dotted, norm, param_names, walk_no_nested
+from ..facts import ShapeError, call_name, calls_in, dotted, kwarg, norm, param_names, walk_no_nested
 from ..lang import lang
 from ..tables import Inst, Opaque, decide, pattern_matches
 
@@ -273,6 +273,59 @@ def site_visitors(ctx: Ctx) -> list[SiteVisitor]:
 # ----------------------------------------------------------------------
 # P1: indices — a refusal spends none, the selection sees the index just spent,
 # every candidate is a site or a refusal
+
+def g2_inline_captures(ctx: Ctx):
+    """A call whose callee cannot be spliced in because of the names it captures -- one of them is a local variable of the
+    caller, or the caller captures another value under it -- is known to be so from the call, the callee and the caller
+    alone.  It must then be a refusal (explained, no index spent), not a listed site whose rewrite raises.  (a) `_captures`
+    is evaluated, from its source, on each of those situations; (b) `_visit_call` hands its answer to `_refuses` before the
+    index is spent, and `_refuses` returns it when nothing else refuses first."""
+    from ..cfg import CFG, find_path
+    from ..minipy import Interp, Obj
+    FI_ = T + 'func_inline.py'
+    meths = {n: f for n, (_, _, f) in ctx.repo.methods(FI_, '_FuncInline', inherited=False).items()}
+    funcs = {n: f for n, f in ctx.repo.functions(FI_) if '.' not in n}
+    cap = meths.get('_captures')
+    vc = meths.get('_visit_call')
+    if vc is None:
+        raise ShapeError('_FuncInline._visit_call not found')
+    if cap is None:
+        ctx.bad(FI_, vc, '_FuncInline._visit_call', 'a clash of captured names is decided before the site is counted',
+                'no such decision: the call is listed, and aiming at it (or at nothing) raises RuntimeError "its free variable `K` is a local variable of the caller"')
+        return
+    K, J = Obj('NamedId', label='K'), Obj('NamedId', label='J')
+    for o in (K, J):
+        o.fields['__str__'] = (lambda o=o: o.fields['label'])
+
+    def str_(o):
+        return o.fields['__str__']() if isinstance(o, Obj) and '__str__' in o.fields else str(o)
+    for what, bound, caller_env, callee_env, free, want in (
+            ('the callee captures K, a local of the caller', {K}, {}, {'K': 3}, {K}, True),
+            ('both capture K, with the same value', set(), {'K': 3}, {'K': 3}, {K}, False),
+            ('both capture K, with different values', set(), {'K': 4}, {'K': 3}, {K}, True),
+            ('the callee captures J, the caller binds K', {K}, {}, {'J': 1}, {J}, False),
+            ('the callee captures nothing', {K}, {'K': 4}, {}, set(), False)):
+        callee = Obj('FuncDef', free_vars=free)
+        fn = Obj('Function', ast=callee, env=dict(callee_env), name='sq')
+        me = Obj('_FuncInline', bound=bound, func=Obj('FuncDef', env=dict(caller_env)), recursive=False, inlined={})
+        it = Interp(funcs, meths, self_obj=me, is_a=lambda k, c: k == c, globals_={'str': str_},
+                    overrides={'Reachability.analyze': lambda a: Obj('ReachabilityAnalysis', ret_stmts=[1]), '_same_captured': lambda a, b: a == b, 'str': str_})
+        got = it.call_function(cap, [Obj('Call', fn=fn)], bound_self=True)
+        ctx.check((got is not None) == want, FI_, cap, '_FuncInline._captures', f'{what}: ' + ('refused' if want else 'not refused on that account'),
+                  f'answers {got!r}: ' + ('the call is listed as a site and inlining it raises RuntimeError' if want else 'a call that can be inlined is refused'))
+    # (b)
+    cfg = CFG(vc)
+    spend = [n for n in cfg.nodes_of('stmt') if isinstance(n.ast, ast.AugAssign) and norm(n.ast.target) == 'self.site_idx']
+    decide_ = [n for n in cfg.nodes_of('stmt') if any(call_name(k) == '_refuses' and (kw := kwarg(k, 'captures')) is not None and call_name(kw) == 'self._captures' for k in calls_in(n.ast))]
+    ok = bool(spend) and bool(decide_) and all(find_path(cfg, cfg.entry, s_, avoid=lambda n: n in decide_) is None for s_ in spend)
+    ctx.check(ok, FI_, vc, '_FuncInline._visit_call', 'the answer of `_captures` reaches `_refuses` before the index is spent', 'the index is spent on a path that has not asked')
+    rf = funcs.get('_refuses')
+    if rf is None:
+        raise ShapeError('_refuses not found')
+    it = Interp(funcs, {}, is_a=lambda k, c: k == c, overrides={'Reachability.analyze': lambda a: Obj('ReachabilityAnalysis', ret_stmts=[1])})
+    got = it.call_function(rf, [Obj('Call', fn=Obj('Function', ast=None, name='sq'))], {'in_while_cond': False, 'in_conditional': None, 'reorders': None, 'captures': 'because'})
+    ctx.check(got == 'because', FI_, rf, '_refuses', 'a call refused for the names its callee captures is refused with that reason', f'answers {got!r}')
+
 
 def p1_index_protocol(ctx: Ctx):
     vs = site_visitors(ctx)
@@ -1624,6 +1677,7 @@ RULES = [
     Rule('C19.T1', '_SITES / _REFUSALS name the transform each strategy runs', t1_wiring, 60, 'T'),
     Rule('C19.T2', 'forwarding, check_site, check_where and selection decide every ordering as documented', t2_forwarding, 49, 'T'),
     Rule('C19.P5', 'edits are accounted per statement; prelude passes report what they prepend; predicate listings agree with the walk', p5_edit_accounting, 15, 'P'),
+    Rule('C19.G2', 'inline: a call whose callee captures a name the caller binds (or captures differently) is a refusal, decided before the index is spent', g2_inline_captures, 7, 'G'),
     Rule('C19.G1', 'listing the sites of a rounding pass answers for an operation recorded under no scope (= C10.G2)', lambda ctx: __import__('sa.props.c10', fromlist=['g2_scopeless_operations']).g2_scopeless_operations(ctx), 8, 'G'),
     Rule('C19.P4', 'aimed apply_with_edits: check_where before, check_site after, own edits reported; one rewriter for listing and rewriting', p4_bracket, 80, 'P'),
 ]
@@ -1634,6 +1688,11 @@ T = 'fpy2/transform/'
 FU, SL, WU, RI, FI = T + 'for_unroll.py', T + 'split_loop.py', T + 'while_unroll.py', T + 'round_insert.py', T + 'func_inline.py'
 
 MUTANTS = [
+    Mutant('captured-name-clash-found-after-the-site-is-counted', FI, "            captures=self._captures(e),\n", "", 'C19.G2',
+           'finding F127 before its repair: sites(inline, f) lists the call and inline(f, 0) raises RuntimeError'),
+    Mutant('only-a-local-clash-is-refused', FI, "            if str(name) in self.func.env and not _same_captured(\n                self.func.env.get(str(name)), e.fn.env.get(str(name))\n            ):", "            if False:", 'C19.G2',
+           'a name the two functions capture with different values still raises from inside the rewrite'),
+    Mutant('other-refusals-mask-nothing-but-captures-dropped', FI, "    if captures is not None:\n        return captures\n    return reorders\n", "    return reorders\n", 'C19.G2'),
     Mutant('listing-handed-every-keyword-of-the-strategy', SITES, "    return lister(func.ast, func.rebase(within), **_listing_kwargs(strategy, lister, kwargs))\n\n\ndef refusals(", "    return lister(func.ast, func.rebase(within), **kwargs)\n\n\ndef refusals(", 'C19.T1',
            'finding F126 before its repair: sites(unroll_while, f, times=2) raises TypeError'),
     Mutant('listing-filter-drops-what-the-lister-takes', SITES, "    return { k: v for k, v in kwargs.items() if k in taken or k not in own }", "    return { k: v for k, v in kwargs.items() if k not in own }", 'C19.T1',
